@@ -32,6 +32,7 @@ type coreCfg struct {
 	HasD     bool
 	HasL     bool
 	OnDialer bool // options set on the dialer itself; the socket keeps other values
+	LateSock bool // options set on the socket after the dialer was created: the socket hands them down to its dialers
 	Steps    []string
 	Scripts  []string // per created pipe: none | closeAttaching | closeAttached | refuse | dropInAdd | closeInDetached
 }
@@ -205,7 +206,9 @@ func runCore(t *testing.T, cfg coreCfg) sim.Result {
 				_ = p.Close()
 			}
 		})
-		if cfg.OnDialer {
+		if cfg.LateSock {
+			// (set below, once the dialer exists)
+		} else if cfg.OnDialer {
 			_ = c.sock.SetOption(mangos.OptionReconnectTime, 3*time.Millisecond)
 			_ = c.sock.SetOption(mangos.OptionMaxReconnectTime, 4*time.Millisecond)
 			_ = c.sock.SetOption(mangos.OptionDialAsynch, !cfg.Asynch)
@@ -217,13 +220,18 @@ func runCore(t *testing.T, cfg coreCfg) sim.Result {
 		var err error
 		if cfg.HasD {
 			var opts map[string]interface{}
-			if cfg.OnDialer {
+			if cfg.OnDialer && !cfg.LateSock {
 				opts = map[string]interface{}{mangos.OptionReconnectTime: cfg.MinT,
 					mangos.OptionMaxReconnectTime: cfg.MaxT, mangos.OptionDialAsynch: cfg.Asynch}
 			}
 			if c.d, err = c.sock.NewDialer(s.Net.Addr("d1"), opts); err != nil {
 				panic(err)
 			}
+		}
+		if cfg.LateSock {
+			_ = c.sock.SetOption(mangos.OptionReconnectTime, cfg.MinT)
+			_ = c.sock.SetOption(mangos.OptionMaxReconnectTime, cfg.MaxT)
+			_ = c.sock.SetOption(mangos.OptionDialAsynch, cfg.Asynch)
 		}
 		if cfg.HasL {
 			if c.l, err = c.sock.NewListener(s.Net.Addr("l1"), nil); err != nil {
@@ -280,6 +288,7 @@ func coreStorm(rng *rand.Rand) coreCfg {
 	ms := time.Millisecond
 	mins := []time.Duration{100 * ms, 10 * ms, 1 * ms}
 	c := coreCfg{MinT: mins[rng.Intn(len(mins))], HasD: true, Asynch: rng.Intn(3) > 0, OnDialer: rng.Intn(2) == 0}
+	c.LateSock = !c.OnDialer && rng.Intn(2) == 0
 	facs := []float64{0, 1, 1.05, 1.3, 2, 5, 40}
 	c.MaxT = time.Duration(float64(c.MinT) * facs[rng.Intn(len(facs))])
 	c.Steps = []string{"dial"}
@@ -316,6 +325,7 @@ func coreRandom(rng *rand.Rand) coreCfg {
 	}
 	c.Asynch = rng.Intn(2) == 0
 	c.OnDialer = rng.Intn(3) == 0
+	c.LateSock = !c.OnDialer && rng.Intn(3) == 0
 	switch rng.Intn(3) {
 	case 0:
 		c.HasD = true
